@@ -348,6 +348,9 @@ def run(tier, seed, replay=None):
     work = Work(PROP)
     try:
         if replay:
+            import e2e
+            if e2e.is_replay(os.path.abspath(replay)):
+                return e2e.do_replay(work, replay, seed, PROP)
             return do_replay(work, replay, seed)
         with ThreadPoolExecutor(max_workers=2) as ex:
             d = ex.submit(design_run, work, verdict, tier)
@@ -413,6 +416,10 @@ def run(tier, seed, replay=None):
             "the processor is a recording rule.SetProcessor that refuses content marked 'bad' or everything while told "
             "to refuse",
         ]
+        # composition part (spec/Heimdall*.tla): the watcher / scheduler goroutines of the file_system and
+        # http_endpoint providers in an assembled service; E3 (convergence) is reported here
+        import e2e
+        e2e.run_into(verdict, work, tier, seed, PROP)
         return verdict.finish()
     finally:
         work.close()
